@@ -1,6 +1,6 @@
 (* Properties_C01.v — C01: a checkpoint at any batch resumes the exact remaining stream (StatefulDataLoader).
    Model: SdlModel.v (multi-process iterator, state_dict, construction from a state dict), proofs: SdlMapProofs.v. *)
-From PD Require Import Base SdlModel SdlObs SdlMapProofs SdlIterWorker.
+From PD Require Import Base SdlModel SdlObs SdlMapProofs SdlIterWorker SdlIterScope SdlIterSmall2.
 Open Scope list_scope. Open Scope nat_scope.
 
 (* map-style datasets, PROVED: for every configuration (num_workers > 0, prefetch_factor > 0, ANY snapshot interval, any
@@ -56,6 +56,18 @@ Theorem C01_iter_worker_rest_exact : forall c, c_kind c = KIter -> forall w fuel
   fst (fetches c w k ts) = answers (length ts) (chunks fuel (c_bs c) (c_drop c) (skipn pos (shard c w))).
 Proof. exact fetches_are_chunks. Qed.
 Print Assumptions C01_iter_worker_rest_exact.
+
+(* the iterable statement itself on a SMALL SCOPE — finite-domain theorem by computation in the kernel (SdlIterSmall2.v):
+   stateful dataset with and without rewind-on-exhaustion, 1-2 workers, prefetch_factor 2, snapshot interval 1-2,
+   batch_size 1-2, drop_last=False, shards of 0-3 items; EVERY interruption point k and every pair of arrival schedules
+   whose first 3 choices are arbitrary.  Nothing is claimed outside this scope. *)
+Theorem C01_iter_resume_exact_small_scope : forall c k s1 s2, In c resume_cfgs -> k <= length (reference c) ->
+  In s1 (all_lists [0; 1] 3) -> In s2 (all_lists [0; 1] 3) ->
+  let '(sk, _) := replay c k (sdl_fresh c) s1 in
+  let '(sr, sched') := sdl_resume c (state_dict sk) s2 in
+  outcomes c (S (length (reference c) - k)) sr sched' = map OBatch (skipn k (reference c)) ++ [OStop].
+Proof. exact iter_resume_exact_small_scope. Qed.
+Print Assumptions C01_iter_resume_exact_small_scope.
 
 (* non-vacuity / regression instances (tests, not proofs): README-style iterable dataset N=10, bs=2, W=2, k=5 (the D1 case),
    and a map-style instance with interval 3 *)
